@@ -117,7 +117,8 @@ func holdsTeardown(c *core.Ctx, fld *types.Var) bool {
 			}
 			stores++
 			if ex, isEx := an.Strip(teardownBehind(st.Val)).(*ssa.Extract); isEx && ex.Index == 1 {
-				if call, isCall := ex.Tuple.(*ssa.Call); isCall && an.Callee(call) != nil && core.RelPkg(an.Callee(call)) == "pkg/f1/testing" {
+				// the handle constructor, or a helper of the package around it: a call handing back (*T, func())
+				if call, isCall := ex.Tuple.(*ssa.Call); isCall && an.Callee(call) != nil && call.Call.Signature().Results().Len() == 2 && an.IsNamed(call.Call.Signature().Results().At(0).Type(), testingPkg, "T") {
 					fromCtor++
 				}
 			}
@@ -394,50 +395,89 @@ func c06(c *core.Ctx, r *core.Report) {
 			return found
 		}
 		n := 0
-		for _, fn := range c.AllFuncs {
-			if core.RelPkg(fn) != "internal/workers" || fn.Parent() != nil {
+		// judged where the body is called; when that function does not run the cleanups itself (a small helper that only
+		// guards the call), the obligation moves to each of its callers in the package
+		var judge func(fn *ssa.Function, root ssa.Instruction, depth int) (bool, ssa.Instruction)
+		judge = func(fn *ssa.Function, root ssa.Instruction, depth int) (bool, ssa.Instruction) {
+			deferred := false
+			an.Instrs(fn, func(in ssa.Instruction) {
+				if d, isDefer := in.(*ssa.Defer); isDefer && isTdCall(d) && an.Dominates(d, root) {
+					deferred = true
+				}
+			})
+			if deferred {
+				return true, nil
+			}
+			esc := an.EscapesWithout(root, func(in ssa.Instruction) bool {
+				if _, isDefer := in.(*ssa.Defer); isDefer {
+					return false
+				}
+				return isTdCall(in)
+			})
+			if esc == nil {
+				return true, nil
+			}
+			if depth <= 0 {
+				return false, esc
+			}
+			outer := an.Outermost(fn)
+			var sites []ssa.CallInstruction
+			for _, cs := range an.CallSitesOf(c, outer) {
+				if core.RelPkg(cs.Parent()) == "internal/workers" {
+					sites = append(sites, cs)
+				}
+			}
+			if fn != outer {
+				// a literal invoked in place: its invocation in the enclosing function
+				return false, esc
+			}
+			if len(sites) == 0 {
+				return false, esc
+			}
+			for _, cs := range sites {
+				if _, isGo := cs.(*ssa.Go); isGo {
+					return false, esc
+				}
+				if ok, e2 := judge(cs.Parent(), cs, depth-1); !ok {
+					return false, e2
+				}
+			}
+			return true, nil
+		}
+		_ = isUser
+		seenRoot := map[ssa.Instruction]bool{}
+		for _, uc := range userCalls(c) {
+			if uc.Kind != "RunFn" || core.RelPkg(uc.Fn) != "internal/workers" {
 				continue
 			}
-			bodies := an.FlatCalls(fn, flatDepth, isUser)
-			// judged in the outermost function that holds the call itself or the literal invoked in place around it
-			for _, e := range bodies {
-				root := e.Root()
-				if root.Parent() != fn {
-					continue
-				}
-				direct := true
-				for fr := e.Frame; fr != nil && fr.Parent != nil; fr = fr.Parent {
-					if fr.Fn != nil && fr.Fn.Parent() == nil {
-						direct = false // reached through a named helper: judged with that helper as the holder
-					}
-				}
-				if !direct {
-					continue
-				}
-				n++
-				key := core.FuncName(fn) + "#cleanups-after-body"
-				// a teardown deferred before the body covers every exit
-				deferred := false
-				an.Instrs(fn, func(in ssa.Instruction) {
-					if d, isDefer := in.(*ssa.Defer); isDefer && isTdCall(d) && an.Dominates(d, root) {
-						deferred = true
+			// the call in its outermost function: a literal invoked in place counts as its invocation
+			fn, root := uc.Fn, ssa.Instruction(uc.Call)
+			okRoot := true
+			for fn.Parent() != nil && okRoot {
+				okRoot = false
+				parent := fn.Parent()
+				an.Instrs(parent, func(in ssa.Instruction) {
+					if mc, isMC := in.(*ssa.MakeClosure); isMC && mc.Fn == ssa.Value(fn) {
+						for _, ref := range an.Referrers(mc) {
+							if ci, isCall := ref.(ssa.CallInstruction); isCall {
+								// invoked in place, or handed to a guarding helper that calls it
+								root, okRoot = ci, true
+							}
+						}
 					}
 				})
-				if deferred {
-					r.OK(key, an.Pos(c, root), "the handle's cleanups are deferred before the body runs")
-					continue
-				}
-				esc := an.EscapesWithout(root, func(in ssa.Instruction) bool {
-					if _, isDefer := in.(*ssa.Defer); isDefer {
-						return false
-					}
-					return isTdCall(in)
-				})
-				if esc != nil {
-					r.Violation(key, an.Pos(c, esc), "after the user's iteration function ran, this exit is reached without running the cleanups registered on its handle (a failing or panicking body leaves them behind)")
-				} else {
-					r.OK(key, an.Pos(c, root), "every path from the body to an exit runs the handle's cleanups")
-				}
+				fn = parent
+			}
+			if !okRoot || seenRoot[root] {
+				continue
+			}
+			seenRoot[root] = true
+			n++
+			key := core.FuncName(fn) + "#cleanups-after-body"
+			if ok, esc := judge(fn, root, 3); ok {
+				r.OK(key, an.Pos(c, root), "every path from the body to an exit runs the handle's cleanups (here or in every caller)")
+			} else {
+				r.Violation(key, an.Pos(c, esc), "after the user's iteration function ran, this exit is reached without running the cleanups registered on its handle (a failing or panicking body leaves them behind)")
 			}
 		}
 		r.Floor("runners of the user's iteration function", n, 1)
